@@ -18,6 +18,10 @@ METHODS1 = ['reverse', 'involute', 'conjugate', 'normsq', 'inv', 'neg', 'hodge',
 FLOATY = ['norm', 'normalized', 'sqrt']
 
 
+MIXED = ['a + b.inv()', 'b.inv() + a', 'a - b.inv()', 'b.inv() - a', 'a + a / b', 'a / b + a', 'a - b * a * b.inv()',
+         'a + b ** -1', '1 + a ** -1', 'a ** -1 + 1', '(a | b) + (b * a) / b.normsq() + 2', 'a * b.inv() + b', '(a + b.inv()) * a']
+
+
 class Gen:
     def __init__(self, rng, nargs, alg, exact=True):
         self.rng, self.nargs, self.alg, self.exact = rng, nargs, alg, exact
@@ -187,6 +191,9 @@ def run(ctx):
         alg = make_algebra(sig)
         d = alg.d
         sources = [(s, 2) for s in exhaustive_depth1()]
+        # sums of a polynomial-valued and a fraction-valued operand in both orders (the symbolic route computes in
+        # kingdon's RationalPolynomial); the arguments of these share their key pattern so the summands meet on blades
+        sources += [(s, 2, 'same') for s in MIXED]
         ntree = 150 if ctx.quick else 1000
         for _ in range(ntree):
             nargs = rng.choice([1, 2, 2, 3])
@@ -198,7 +205,9 @@ def run(ctx):
         inner_reg = alg.register(inner)
         sources.append(('inner_fn(a, b) >> a', 2))
         sources.append(('inner_fn(~a, b).grade(1) + inner_fn(b, a)', 2))
-        for src, nargs in sources:
+        for item in sources:
+            src, nargs = item[0], item[1]
+            same = len(item) > 2
             fid[0] += 1
             name = f'f{fid[0]}'
             extra_direct = {'inner_fn': inner}
@@ -212,6 +221,9 @@ def run(ctx):
             pats = key_tuples(rng, d, nargs, ['small', 'grades', 'single', 'subset'])
             full = list(alg.canon2bin.values())
             pats = [list(dict.fromkeys((p if p is not None else full)))[:4] or [1] for p in pats]
+            if same:
+                base = rng.choice([[1, 2], [0, 3], [1, 2, 4][:d], [0, 1]])
+                pats = [list(base) for _ in pats]
             floaty = any(m in src for m in FLOATY) or '** 0.5' in src
             args = [values_for(alg, rng, p, exact=not floaty) for p in pats]
             direct = result_of(f, args)
@@ -222,7 +234,7 @@ def run(ctx):
             supported = is_supported(src)
             routes = [('registered', lambda: alg.register(f_for_reg))]
             heavy = src.count('>>') + src.count('@') + src.count('.inv()') + src.count('/') + src.count('**') + src.count('.sw(') + src.count('.proj(') + src.count('.div(')
-            if heavy <= 1 and len(src) < 60:
+            if (heavy <= 1 and len(src) < 60) or same:
                 routes.append(('registered-symbolic', lambda: alg.register(symbolic=True)(f_for_sym)))
             for rname, mk in routes:
                 ctx.case({**case, 'route': rname}, tag=rname + (':supported' if supported else ':other'))
@@ -236,7 +248,8 @@ def run(ctx):
                 if got[0] == 'ok':
                     if not close(got[1], direct[1]):
                         ctx.violation('registered-differs', {**case, 'route': rname}, str(direct[1])[:300], str(got[1])[:300],
-                                      key=f'{rname}:differs:' + ('supported' if supported else 'other'))
+                                      key=f'{rname}:differs:' + ('supported' if supported else 'other') +
+                                      (':coefficient-access' if rname == 'registered-symbolic' and construct_class(src) == 'coefficient-access' else ''))
                 elif got[0] == 'raise' and supported:
                     # supported constructs must not raise when the plain function succeeds
                     if rname == 'registered-symbolic' and got[1] in ('ZeroDivisionError',):
